@@ -17,8 +17,20 @@
                   (rc 0) earlier in this read and not registered again since;
                   such a watch is not in the tree at handler exit either; once
                   a handler unregistered the instance nothing more is delivered;
-     scripts      the handler ran exactly the scripted actions.
-   Proved to accept every read of the model (Props/Properties_C20.v). *)
+     scripts      the handler ran exactly the scripted actions;
+     no watch     -1 is what inotify_add_watch answers when it fails and the wd
+                  the kernel puts into queue-overflow events (IN_Q_OVERFLOW): it
+                  is the descriptor of no watch.  An event with wd -1 is
+                  delivered to nobody whatever the implementation's tree says;
+                  no observed watch set (before the read, at any handler exit,
+                  in any dump) has an entry under -1; a registration for which
+                  the scenario's inotify_add_watch answered -1 returned -1 (or
+                  was skipped by a harness guard, rc 1), never 0.
+   mon_act decides the same on ONE top-level action record (dumps of all
+   instances before and after, the action with the oracle's wd, its rc): a
+   registration whose oracle is -1 returns -1 / is skipped and leaves every
+   watch set unchanged; no dump has an entry under -1.
+   Proved to accept every read / action of the model (Props/Properties_C20.v). *)
 From Coq Require Import List ZArith Bool.
 From Ivv Require Import Misc.InotifyModel.
 Import ListNotations.
@@ -95,12 +107,31 @@ Definition unreg_inst (i : id) (lg : list (act * Z)) : bool :=
 Definition is_dropped (emask wmask : Z) : bool :=
   Z.testbit emask IN_IGNORED_BIT || Z.testbit wmask IN_ONESHOT_BIT.
 
+(* ---------- wd -1: the descriptor of no watch ---------- *)
+Definition no_wd (wd : Z) : bool := wd =? -1.
+
+(* a watch set without an entry under -1 *)
+Definition view_ok (l : list (Z * id)) : bool := forallb (fun p => negb (no_wd (fst p))) l.
+
+(* the watch an event with this wd is for: none for -1, whatever the observed set contains *)
+Definition route (cur : list (Z * id)) (wd : Z) : option id :=
+  if no_wd wd then None else lookup cur wd.
+
+(* one action record (top level or script) against the scenario's oracle: the wd in ARegW is what
+   inotify_add_watch returns in this call; when it is -1 iv_inotify_watch_register returns -1
+   (rc 1 = the harness guard skipped the call) *)
+Definition reg_rc_ok (x : act * Z) : bool :=
+  match x with
+  | (ARegW _ _ wd _, rc) => if no_wd wd then (rc =? -1) || (rc =? 1) else true
+  | _ => true
+  end.
+
 Fixpoint mon_walk (sc : scripts) (i : id) (cur : list (Z * id)) (dead : list id)
          (evs : list event) (tr : list delivery) : bool :=
   match evs with
   | [] => match tr with [] => true | _ :: _ => false end
   | e :: evs' =>
-      match lookup cur (e_wd e) with
+      match route cur (e_wd e) with
       | None => mon_walk sc i cur dead evs' tr
       | Some w =>
           match tr with
@@ -114,10 +145,12 @@ Fixpoint mon_walk (sc : scripts) (i : id) (cur : list (Z * id)) (dead : list id)
               negb (mem_id w dead) &&
               view_eqb (d_entry d) (if dropped then remove_key cur (e_wd e) else cur) &&
               acts_eqb (map fst (d_acts d)) (sc w (e_cookie e)) &&
+              forallb reg_rc_ok (d_acts d) &&
               match d_exit d with
               | None => unreg_inst i (d_acts d) && match tr' with [] => true | _ :: _ => false end
               | Some x =>
                   negb (unreg_inst i (d_acts d)) &&
+                  view_ok x &&
                   forallb (fun w' => negb (mem_id w' (map snd x))) dead1 &&
                   mon_walk sc i x dead1 evs' tr'
               end
@@ -128,4 +161,24 @@ Fixpoint mon_walk (sc : scripts) (i : id) (cur : list (Z * id)) (dead : list id)
 (* c0: the watch set of instance i before the read; evs: the events in the read
    ([] when read returned EAGAIN) *)
 Definition mon_feed (sc : scripts) (i : id) (c0 : list (Z * id)) (evs : list event) (tr : list delivery) : bool :=
-  mon_walk sc i c0 [] evs tr.
+  view_ok c0 && mon_walk sc i c0 [] evs tr.
+
+(* ---------- one top-level action record ---------- *)
+(* the dumps a segment of the harness output carries: instance id -> its watch set, in the order printed *)
+Definition dumps := list (id * list (Z * id)).
+
+Fixpoint dumps_eqb (a b : dumps) : bool :=
+  match a, b with
+  | [], [] => true
+  | (i, x) :: a', (j, y) :: b' => Pos.eqb i j && view_eqb x y && dumps_eqb a' b'
+  | _, _ => false
+  end.
+
+Definition dumps_ok (d : dumps) : bool := forallb (fun p => view_ok (snd p)) d.
+
+Definition mon_act (before after : dumps) (a : act) (rc : Z) : bool :=
+  dumps_ok after && reg_rc_ok (a, rc) &&
+  match a with
+  | ARegW _ _ wd _ => if no_wd wd then dumps_eqb before after else true
+  | _ => true
+  end.
